@@ -1,4 +1,5 @@
 import RdsProofs.Reach
+import RdsProofs.NormalShown
 import RdsProofs.LinkProofs
 import RdsProofs.TableC11
 import RdsProofs.AuditFrames
@@ -13,6 +14,7 @@ valid enumerator. `C11_generated` instantiates it with the tables read out of th
 A0–A6/D0–D4/E0–E5/F0–F4 and for PI unknown / nibble 0; `C11_range`: every cell is a valid enumerator.
 -/
 -- THEOREM: RDS.C11
+-- THEOREM: RDS.C11_normal_shown
 -- THEOREM: RDS.C11_generated
 -- THEOREM: RDS.C11_table
 -- THEOREM: RDS.C11_cells
@@ -23,6 +25,11 @@ A0–A6/D0–D4/E0–E5/F0–F4 and for PI unknown / nibble 0; `C11_range`: ever
 -- THEOREM: RDS.C11_frame_step
 -- THEOREM: RDS.C11_frame_history
 namespace RDS
+
+/-- "received is shown", for every history: with the extended check off at the moment of the call — whatever the mode was earlier — the ECC of an accepted 1A variant-0 group is what the getter shows after the call -/
+theorem C11_normal_shown (tb : Tabs) (h : EccOk tb) (ops : List Op) (op : Op) :
+    chkNormalEcc (recOf tb.cfg (run tb.cfg ops) op) = true :=
+  chkNormalEcc_ok tb _ op (reach tb h ops).2
 
 /-- C11 for every history and every next call -/
 theorem C11 (tb : Tabs) (h : EccOk tb) (ops : List Op) (op : Op) :
